@@ -27,7 +27,17 @@ const Mod = "github.com/deepteams/webp"
 const Z = Mod + "/internal/zzverif"
 
 // Report of one instrumentation run.
+// YieldFuncs names the functions at whose entry rewrite R3 inserts a
+// scheduling point (vhook.Yield): the places where the row-pipelined encoder
+// starts reading, and starts publishing, the context shared between rows.
+// Without them a schedule can only switch at synchronisation operations, which
+// cannot expose a missing wait (the unsynchronised access itself is the bug).
+// A name that is not found is skipped and listed in the report.
+var YieldFuncs = []string{"importBlockParallel", "exportParallel"}
+
 type Report struct {
+	YieldPoints  []string `json:"yield_points"`
+	YieldMissing []string `json:"yield_points_missing"`
 	Files        []string `json:"files_rewritten"`
 	WorkerSites  []string `json:"worker_sites"`
 	GoStmts      int      `json:"go_statements"`
@@ -71,7 +81,15 @@ func Rewrite(repo, outDir string, rep *Report) (map[string]string, error) {
 			return err
 		}
 		if !bytes.Contains(src, []byte("GOMAXPROCS")) && !bytes.Contains(src, []byte(`"sync"`)) && !bytes.Contains(src, []byte(`"sync/atomic"`)) {
-			return nil
+			hasYield := false
+			for _, yn := range YieldFuncs {
+				if bytes.Contains(src, []byte("func "+yn+"(")) {
+					hasYield = true
+				}
+			}
+			if !hasYield {
+				return nil
+			}
 		}
 		out, changed, err := rewriteFile(rel, src, rep)
 		if err != nil {
@@ -92,6 +110,17 @@ func Rewrite(repo, outDir string, rep *Report) (map[string]string, error) {
 		rep.Files = append(rep.Files, rel)
 		return nil
 	})
+	for _, yn := range YieldFuncs {
+		found := false
+		for _, y := range rep.YieldPoints {
+			if strings.HasSuffix(y, ":"+yn) || strings.HasSuffix(y, "."+yn) {
+				found = true
+			}
+		}
+		if !found {
+			rep.YieldMissing = append(rep.YieldMissing, yn)
+		}
+	}
 	sort.Strings(rep.Files)
 	sort.Strings(rep.WorkerSites)
 	return overlay, err
@@ -177,6 +206,21 @@ func rewriteFile(rel string, src []byte, rep *Report) ([]byte, bool, error) {
 		fname := fd.Name.Name
 		if fd.Recv != nil && len(fd.Recv.List) == 1 {
 			fname = recvName(fd.Recv.List[0].Type) + "." + fname
+		}
+		// R3
+		if fd.Recv == nil || true {
+			for _, yn := range YieldFuncs {
+				if fd.Name.Name == yn {
+					call := &ast.ExprStmt{X: &ast.CallExpr{
+						Fun:  &ast.SelectorExpr{X: ast.NewIdent("vhookR1"), Sel: ast.NewIdent("Yield")},
+						Args: []ast.Expr{&ast.BasicLit{Kind: token.STRING, Value: strconv.Quote(yn)}},
+					}}
+					fd.Body.List = append([]ast.Stmt{call}, fd.Body.List...)
+					needHook = true
+					changed = true
+					rep.YieldPoints = append(rep.YieldPoints, pkgDir+"/"+base+":"+fname)
+				}
+			}
 		}
 		// R1
 		k := 0
